@@ -225,6 +225,9 @@ class Interp:
             v = self.expr(st[3], scopes, outer, me)
             ob = self.expr(st[1], scopes, outer, me)
             self.field_cell(ob, st[2]).v = v
+        elif k == "sameline":
+            for sub in st[1]:           # several statements written on ONE source line (statements need no line break between them)
+                self.stmt(sub, scopes, outer, me)
         elif k == "import" or k == "importfrom":
             # the module's top-level code runs the FIRST time an import of it is executed, to the end, before the importer continues;
             # every importer gets the same instance
@@ -603,6 +606,8 @@ def rstmts(stmts, ind, inputs=None):
                 out += rstmts(body, ind + 2, inputs)
                 out.append("%s\t}" % t)
             out.append(t + "}")
+        elif k == "sameline":
+            out.append(t + " ".join(x.strip() for sub in st[1] for x in rstmts([sub], 0, inputs)))
         elif k == "import":
             out.append("%simport %s" % (t, st[1]))
         elif k == "importfrom":
